@@ -71,15 +71,19 @@ Record task : Type := mk_task { t_path : path; t_action : eaction; t_src : optio
    source FILE of the same name exactly as if the directory were a file *)
 Definition plan_entry (c : cfg) (ds : path -> N * Z) (dst : fs) (e : sentry) : task :=
   let a :=
-    if se_is_dir e then match dst (se_path e) with Some _ => ASkip | None => ACreate end
+    if se_is_dir e then match dst (se_path e) with
+                        | Some Dir => ASkip
+                        | Some (File _ _ _) => ACreate        (* a file in the directory's place: create_dir_all fails and is reported
+                                                                 (`fix: an entry of the wrong kind in the destination is reported, not skipped`) *)
+                        | None => ACreate
+                        end
     else match dst (se_path e) with
          | None => ACreate
          | Some (File dc dsz dmt) =>
              if c_checksum c then (if N.eqb dc (se_content e) then ASkip else AUpdate)   (* both checksums computed and compared *)
              else if needs_update c e dsz dmt then AUpdate else ASkip
-         | Some Dir =>                                          (* stat succeeds on the directory; a copy would then fail *)
-             if c_checksum c then AUpdate
-             else if needs_update c e (fst (ds (se_path e))) (snd (ds (se_path e))) then AUpdate else ASkip
+         | Some Dir => AUpdate                                  (* a directory in the file's place: the copy fails (EISDIR) and is reported;
+                                                                   [ds], the directory's own stat, is no longer consulted *)
          end in
   mk_task (se_path e) a (Some e).
 
